@@ -231,6 +231,24 @@ def check(rep):
                               witness_class="not-a-real")
         if good:
             d[1] += 1
+    # (4) the normal-form pass on forms that are NOT fully reduced (what the give-up exit of the rewriter hands
+    #     to it when a big symbolic derivative exhausts the step budget): no foreign exception may escape
+    from .c08 import partially_reduced_inputs, normal_form_case
+    from ..simpengine import rule_inputs
+    pr = partially_reduced_inputs(model, rule_inputs(model, "quick"))
+    pres = pmap(normal_form_case, [(t,) for (t, _l) in pr], chunksize=8)
+    for (tree, label), r in zip(pr, pres):
+        d = per.setdefault(("normal-form pass on a partially reduced form", label), [0, 0])
+        d[0] += 1
+        if r["kind"] == "unsupported":
+            rep.unknown("C17.give-up-path", label, "", r["msg"])
+        elif r["kind"] == "raise" and r["exc"] not in LIBRARY_ERRORS and r["exc"] != "OverflowError":
+            rep.violation("C17.give-up-path", f"{tree[0]}._normalize_fully_reduced", r.get("origin", ""),
+                          f"the normal-form pass applied to the partially reduced {spec.show(tree)} (as as_expression() does "
+                          f"when the rewriter gives up on a large derivative) raises {r['exc']}",
+                          witness_class=f"{r['exc']} {tree[0]}")
+        else:
+            d[1] += 1
     byroute = {}
     for (route, label), (n, good) in per.items():
         a = byroute.setdefault(route, [0, 0, 0])
